@@ -76,10 +76,14 @@ def run(F, R, tier):
     if not (R.anchor("main::run_buf", rb) and R.anchor("main::run_filters", rf)):
         return
     # ---- (a) main program runs once, outside any loop, before run_filters ------------------------------------------------
-    ev = events(H.body_of(rb), {"run", "run_filters", "new_with_global_store", "compile", "parse_program", "last_popped"})
+    KEEP_RB = {"run", "run_filters", "new_with_global_store", "compile", "parse_program", "last_popped"}
+    ev = events(H.body_inl(F, rb, keep=KEEP_RB), KEEP_RB)
     names = [(n, d) for n, d, _ in ev]
+    # the program is parsed, compiled and run once, outside any loop, and the filters start only after that run; printing
+    # the last value in -c mode (last_popped) may come before or after the call of run_filters (they exclude each other)
+    core_ = [n for n, d in names if n != "last_popped"]
     R.ob("main-runs-once", "run_buf: parse → compile → VM → run → run_filters, none inside a loop",
-         [n for n, d in names] == ["parse_program", "compile", "new_with_global_store", "run", "last_popped", "run_filters"] and all(d == 0 for n, d in names),
+         core_ == ["parse_program", "compile", "new_with_global_store", "run", "run_filters"] and all(d == 0 for n, d in names),
          str(names), F.loc(rb))
     cf = F.fn("compiler::Compiler::compile_filter_statement")
     if R.anchor("compile_filter_statement", cf):
@@ -129,9 +133,9 @@ def run(F, R, tier):
             R.ob("filter-template", "no other pattern/action combination is compiled", set(got) == set(want), str(sorted(got, key=repr)))
     E.num_locals_rule(F, R, "compile_filter_statement", "a filter's frame reserves one slot per local of the filter's own scope")
     # ---- (b) per-packet typestate --------------------------------------------------------------------------------------------
-    b = H.body_of(rf)
     interesting = {"next_packet", "set_curr_pkt", "update_builtin_var", "push_filter_frame", "run", "pop_filter_frame", "write_all",
                    "assignop:count+=", "from_file", "new_with_header", "new_with_magic", "_print"}
+    b = H.body_inl(F, rf, keep=interesting)
     ev = events(b, interesting)
     seq = [(n, d) for n, d, _ in ev]
     per_packet = [n for n, d in seq if d == 1]
